@@ -142,6 +142,10 @@ fn mpc_level(rep: &mut Report, seed: u64, thorough: bool) {
                 res.push((name, Some(format!("harness:{e}"))));
                 continue;
             }
+            if ex.outcomes.iter().any(crate::props::env_failure) {
+                res.push((name, Some("harness:temp-file I/O error of the environment".to_string())));
+                continue;
+            }
             if !(ex.end == RunEnd::AllFinished && ex.outcomes.iter().all(|o| matches!(o, Outcome::Done(Ok(v)) if *v == expected))) {
                 let d: Vec<String> = ex.outcomes.iter().map(crate::props::classify).collect();
                 sig = Some(format!("mpc does not return the clear-text result under a {} temp-file assignment ({})", if m.iter().all(|b| *b == m[0]) { "uniform" } else { "mixed" }, d.join(" / ")));
@@ -227,7 +231,7 @@ pub fn run(tier: &str, seed: u64) -> i32 {
             rep.distinct.insert(format!("c={c} {}", s.iter().map(|o| op_name(o, *c)).collect::<Vec<_>>().join(",")));
         }
         match r {
-            Err((sig, w)) if sig == "io" => rep.harness_error(format!("cannot create buffer: {w}")),
+            Err((sig, w)) if sig == "io" || w.to_string().contains("No space left") || w.to_string().contains("StorageFull") => rep.harness_error(format!("temp-file I/O error of the environment: {sig} {w}")),
             Err((sig, w)) => rep.violation(sig, w),
             Ok(()) => {
                 if rep.evaluations % 4001 == 7 {
